@@ -209,6 +209,7 @@ func scenAPI(rep *Report, tier string, seed int64) {
 	}
 	rep.Sample(map[string]interface{}{"chain_length": length, "api_calls": calls, "early_height_answers": early})
 	apiLockedCommits(rep, s, chain, refDump, seed)
+	apiUnderWriterLock(rep, d.DBPath, userAddr)
 	rep.Rule = "one evaluation = one API request served by the real srv handlers over HTTP (6 client goroutines cycling through the read methods) while the real DBlockSync applies the chain block by block, plus one per block; final ledger compared with the load-free lock-step run; distinct is not meaningful for a schedule exploration and is reported as the number of scenario phases"
 }
 
